@@ -212,16 +212,16 @@ def writeThenParse (ls : List Line) : Res MediaPlaylist :=
 
 /-- the former finding K3 (the writer re-announced nothing after the reset): since the `fix:` that
 makes the writer print the reset, this history round-trips -/
-theorem k3_repaired : (assembleMedia {} k3Lines).isOk = true ∧ writeThenParse k3Lines = assembleMedia {} k3Lines := by decide
+theorem k3_repaired : (assembleMedia {} k3Lines).isOk = true ∧ writeThenParse k3Lines = assembleMedia {} k3Lines := by decide +kernel
 
 theorem k2_counterexample : (assembleMedia {} k2Lines).isOk = true ∧ (writeThenParse k2Lines).isOk = true ∧
-    writeThenParse k2Lines ≠ assembleMedia {} k2Lines := by decide
+    writeThenParse k2Lines ≠ assembleMedia {} k2Lines := by decide +kernel
 
 /-- a control: the same shapes without the defect round-trip exactly -/
 theorem control_roundtrip :
     writeThenParse [.targetDuration 10000000000, .key (some kA), .key (some kB), .map ⟨['m'], none, []⟩, .inf inf1, .uri ['s', '0'],
       .key none, .inf inf1, .uri ['s', '1'], .key (some kA), .key (some kB), .inf inf1, .uri ['s', '2']] =
     assembleMedia {} [.targetDuration 10000000000, .key (some kA), .key (some kB), .map ⟨['m'], none, []⟩, .inf inf1, .uri ['s', '0'],
-      .key none, .inf inf1, .uri ['s', '1'], .key (some kA), .key (some kB), .inf inf1, .uri ['s', '2']] := by decide
+      .key none, .inf inf1, .uri ['s', '1'], .key (some kA), .key (some kB), .inf inf1, .uri ['s', '2']] := by decide +kernel
 
 end Hls.C03K
